@@ -528,3 +528,117 @@ Proof.
     cbn [print_instr app p_instruction p_command].
     rewrite <- !app_assoc, (p_frame_rt a _ Ha); cbn [bind]. rewrite (p_frame_rt b _ Hb). reflexivity.
 Qed.
+
+(** * Programs *)
+
+Definition starts_instr (ts : list tok) : Prop :=
+  match ts with TCmd _ :: _ | TId _ :: _ | TModifier _ :: _ => True | _ => False end.
+
+Lemma print_instr_head : forall i, wf_instr i = true -> forall rest, starts_instr (print_instr i ++ rest).
+Proof.
+  intros i Hwf rest. destruct i; cbn [wf_instr] in Hwf; try discriminate; cbn; auto.
+  destruct mods; cbn; auto.
+Qed.
+
+Lemma skip_starts : forall ts, starts_instr ts -> skip ts = ts.
+Proof. intros [|[] ts] H; cbn in H; try contradiction; reflexivity. Qed.
+
+Lemma loop_newline : forall f X,
+  p_program_loop Repaired f (TNewLine :: X) = p_program_loop Repaired f X.
+Proof. intros [|f] X; reflexivity. Qed.
+
+Lemma loop_step : forall f i rest, wf_instr i = true -> line_end rest ->
+  p_program_loop Repaired (S f) (print_instr i ++ rest) =
+  match p_program_loop Repaired f rest with
+  | Ok l r' => Ok (i :: l) r'
+  | o => o
+  end.
+Proof.
+  intros f i rest Hwf Hle. cbn [p_program_loop].
+  pose proof (print_instr_head i Hwf rest) as Hs. rewrite (skip_starts _ Hs).
+  pose proof (instr_rt i rest Hwf Hle) as Hi.
+  destruct (print_instr i ++ rest) as [|t ts]; [contradiction|]. rewrite Hi. reflexivity.
+Qed.
+
+Lemma program_loop_rt : forall l, forallb wf_instr l = true ->
+  forall f, length l < f -> p_program_loop Repaired f (print_program l) = Ok l [].
+Proof.
+  induction l as [|i l IH]; intros Hwf f Hf; cbn [length] in Hf; (destruct f as [|f]; [lia|]).
+  - reflexivity.
+  - cbn [forallb] in Hwf. apply andb_true_iff in Hwf as [Hi Hl].
+    cbn [print_program flat_map]. fold (print_program l). rewrite <- app_assoc. cbn [app].
+    rewrite (loop_step f i (TNewLine :: print_program l) Hi I). rewrite loop_newline. rewrite (IH Hl f) by lia. reflexivity.
+Qed.
+
+Lemma print_program_len : forall l, length l <= length (print_program l).
+Proof.
+  induction l as [|i l IH]; cbn [print_program flat_map length]; [lia|].
+  fold (print_program l). rewrite !app_length. cbn [length]. lia.
+Qed.
+
+(** a well-formed program of fragment instructions, printed one instruction per line, parses back
+    to itself *)
+Theorem program_rt : forall l, forallb wf_instr l = true ->
+  p_program Repaired (print_program l) = Ok l [].
+Proof.
+  intros l Hwf. unfold p_program. apply program_loop_rt; auto.
+  pose proof (print_program_len l). lia.
+Qed.
+
+(** a single instruction without a trailing newline (the text of [Instruction::to_quil]) *)
+Theorem single_rt : forall i, wf_instr i = true -> p_program Repaired (print_instr i) = Ok [i] [].
+Proof.
+  intros i Hwf. unfold p_program.
+  rewrite <- (app_nil_r (print_instr i)) at 2.
+  rewrite (loop_step _ i [] Hwf I). destruct (length (print_instr i)); reflexivity.
+Qed.
+
+(** * The instance checker *)
+
+Lemma ident_eqb_eq : forall a b, ident_eqb a b = true -> a = b.
+Proof.
+  intros [r|r|n] [s|s|m] H; cbn in H; try discriminate.
+  - f_equal. now apply internal_reserved_dec_bl.
+  - f_equal. now apply internal_reserved_dec_bl.
+  - f_equal. now apply N.eqb_eq.
+Qed.
+
+Lemma flit_eqb_eq : forall a b, flit_eqb a b = true -> a = b.
+Proof. intros [n|n|n] [m|m|m] H; cbn in H; try discriminate; f_equal; now apply N.eqb_eq. Qed.
+
+Lemma tok_eqb_eq : forall a b, tok_eqb a b = true -> a = b.
+Proof.
+  intros a b H; destruct a, b; cbn in H; try discriminate; try reflexivity; f_equal;
+    first [ now apply internal_cmd_dec_bl | now apply internal_dtype_dec_bl
+          | now apply internal_modifier_dec_bl | now apply internal_iop_dec_bl
+          | now apply ident_eqb_eq | now apply N.eqb_eq | now apply flit_eqb_eq ].
+Qed.
+
+Lemma toks_eqb_eq : forall a b, toks_eqb a b = true -> a = b.
+Proof.
+  induction a as [|x a IH]; intros [|y b] H; cbn in H; try discriminate; auto.
+  apply andb_true_iff in H as [H1 H2]. f_equal; [now apply tok_eqb_eq | now apply IH].
+Qed.
+
+(** a fragment case accepted by the checker: the tokens the implementation printed are exactly
+    the model's print of a well-formed instruction, they parse (in the model) to exactly the
+    implementation's AST, and the real chain reported equal programs and equal texts *)
+Theorem case_code_sound : forall t1 i1 t2 b d,
+  case_code (CFrag t1 i1 t2 b d) = 0%N ->
+  wf_instr i1 = true /\ t2 = print_instr i1 /\
+  p_program Repaired t2 = Ok [i1] [] /\ b = true /\ d = true.
+Proof.
+  intros t1 i1 t2 b d H. unfold case_code in H.
+  destruct (b && d) eqn:Hbd; cbn [negb] in H; [|discriminate].
+  destruct (parses_to t2 i1); cbn [negb] in H; [|discriminate].
+  destruct (wf_instr i1 && toks_eqb (print_instr i1) t2) eqn:Hw; cbn [negb] in H; [|discriminate].
+  apply andb_true_iff in Hw as [Hwf Heq]. apply toks_eqb_eq in Heq. subst t2.
+  apply andb_true_iff in Hbd as [-> ->].
+  repeat split; auto. apply single_rt; exact Hwf.
+Qed.
+
+Theorem opaque_code_sound : forall a b d, case_code (COpaque a b d) = 0%N ->
+  a = true /\ b = true /\ d = true.
+Proof.
+  intros a b d H. cbn in H. destruct a, b, d; cbn in H; try discriminate; auto.
+Qed.
